@@ -838,10 +838,15 @@ def _microseconds_since_epoch(timedelta_: Optional[timedelta] = None) -> int:
 def _check_database_structure(conn: sqlite3.Connection):
     """
     Function to check if the existing database file matches the expected table structure
+
+    Note that all transactions that (may) write are started with BEGIN IMMEDIATE. A
+    deferred transaction that first reads and then writes deadlocks with another
+    connection doing the same (SQLite then fails at once with "database is locked",
+    without waiting for the busy timeout).
     """
     cursor = conn.cursor()
 
-    cursor.execute("BEGIN TRANSACTION;")
+    cursor.execute("BEGIN IMMEDIATE TRANSACTION;")
     cursor.execute("SELECT name FROM sqlite_master WHERE type='table' AND name='models'")
     table_exists = cursor.fetchone()
     table_correct = False
@@ -882,7 +887,7 @@ def _check_database_structure(conn: sqlite3.Connection):
 
     # For metadata we check if the table layout is correct, but also whether
     # the metadata keys exist.
-    cursor.execute("BEGIN TRANSACTION;")
+    cursor.execute("BEGIN IMMEDIATE TRANSACTION;")
     cursor.execute("SELECT name FROM sqlite_master WHERE type='table' AND name='metadata'")
     metadata_table_exists = cursor.fetchone()
     metadata_table_correct = False
@@ -916,7 +921,7 @@ def _check_database_structure(conn: sqlite3.Connection):
         )
     conn.commit()
 
-    cursor.execute("BEGIN TRANSACTION;")
+    cursor.execute("BEGIN IMMEDIATE TRANSACTION;")
     cursor.execute(
         "INSERT OR IGNORE INTO metadata (key, value) VALUES (?, ?)",
         ("created_at", _microseconds_since_epoch()),
@@ -1021,6 +1026,11 @@ def parse(
             result = cursor.fetchone()
             if result != ("ok",):
                 raise sqlite3.DatabaseError("Database integrity check failed")
+        except sqlite3.OperationalError:
+            # E.g. "database is locked" by another process or thread: the database
+            # is in use, not corrupt, and must not be deleted.
+            conn.close()
+            raise
         except sqlite3.DatabaseError:
             conn.close()
 
@@ -1033,7 +1043,7 @@ def parse(
         _check_database_structure(conn)
 
         # Prune the database of entries not hit recently
-        cursor.execute("BEGIN TRANSACTION;")
+        cursor.execute("BEGIN IMMEDIATE TRANSACTION;")
         cutoff_time = _microseconds_since_epoch(timedelta(days=-cache_expiration_days))
         cursor.execute("DELETE FROM models WHERE last_hit < ?", (cutoff_time,))
         # Sometimes Windows time resolution is a bit coarse, so we make
@@ -1071,7 +1081,7 @@ def parse(
         yesterday = _microseconds_since_epoch(timedelta(days=-1))
 
         if always_update_last_hit or last_hit < yesterday:
-            cursor.execute("BEGIN TRANSACTION;")
+            cursor.execute("BEGIN IMMEDIATE TRANSACTION;")
             # Sometimes Windows time resolution is a bit coarse, so we make
             # sure that if we update the last_hit time, it is actually newer
             # than the previous one.
@@ -1105,7 +1115,7 @@ def parse(
 
             # Note that we do an 'INSERT OR REPLACE' because concurrent access
             # might mean two processes/threads try to insert an entry
-            cursor.execute("BEGIN TRANSACTION;")
+            cursor.execute("BEGIN IMMEDIATE TRANSACTION;")
             cursor.execute(
                 "INSERT OR REPLACE INTO models (txt_hash, pymoca_version, data, last_hit) VALUES (?, ?, ?, ?)",
                 (txt_hash, pymoca_version, pickled_data, _microseconds_since_epoch()),
